@@ -756,6 +756,24 @@ func (x *Exec) loopEnv(fr *Frame, li *loopInfo, st *State, override map[*ssa.Phi
 			env.vars[phi.Comment] = x.cvOfVal(v)
 		}
 	}
+	// index phis of the other range loops already executed (an inner loop left
+	// by break): rangeindex_<ordinal>, the index of the last completed iteration
+	for _, other := range fr.loops {
+		if other == li {
+			continue
+		}
+		for _, ins := range other.head.Instrs {
+			phi, ok := ins.(*ssa.Phi)
+			if !ok {
+				break
+			}
+			if phi.Comment == "rangeindex" {
+				if v := fr.env[phi]; v != nil {
+					env.vars[fmt.Sprintf("rangeindex_%d", other.ordinal)] = x.cvOfVal(v)
+				}
+			}
+		}
+	}
 	// implicit range index: the phi named "rangeindex" is exposed as "idx"
 	if li.entrySt != nil {
 		env.loopEntry = li.entrySt
